@@ -36,6 +36,11 @@ CHECKS = {
         rapid("storeprops", "TestC18Outputs", 8000, 800000, qs=4, replay="TestC18OutputsReplay"),
         rapid("storeprops", "TestC18Stores", 8000, 800000, qs=4, replay="TestC18StoresReplay"),
     ]),
+    "C12": dict(tests=[
+        loop("pure", "TestC12Grid", qs=12, ts=16, replay="TestC12GridReplay"),
+        rapid("pure", "TestC12Random", 200000, 20000000, qs=2, replay="TestC12RandomReplay"),
+        rapid("pure", "TestC12Cursor", 100000, 10000000, qs=2, replay="TestC12CursorReplay"),
+    ]),
     "C13": dict(tests=[
         loop("pure", "TestC13SegExhaustive", qs=4, ts=8, replay="TestC13SegReplay"),
         rapid("pure", "TestC13SegRandom", 20000, 4000000, qs=2, replay="TestC13SegRandomReplay"),
